@@ -37,16 +37,24 @@ def IssueMgr.popFront (m : IssueMgr) : IssueMgr :=
   let r := popLoop m.cache m.fifo
   { m with fifo := r.1, cache := r.2 }
 
+/-- the deduplication test of `add_issue` -/
+def IssueMgr.isDup (m : IssueMgr) (window id : Nat) (mrk : Marker) : Bool :=
+  match m.lookup id with
+  | some ex => decide (mrk.ts - ex.ts < window)   -- duration_since(..).unwrap_or(0)
+  | none => false
+
+/-- `if self.cache.len() >= self.max_entries { self.pop_front(); }` -/
+def IssueMgr.evictIfFull (m : IssueMgr) (maxEntries : Nat) : IssueMgr :=
+  if m.cache.length ≥ maxEntries then m.popFront else m
+
+/-- `fifo_issues.push_back((id, ts)); cache.insert(id, marker)` -/
+def IssueMgr.insert (m : IssueMgr) (id : Nat) (mrk : Marker) : IssueMgr :=
+  { m with fifo := m.fifo ++ [(id, mrk.ts)], cache := cacheInsert m.cache id mrk }
+
 /-- `add_issue`; the Boolean says whether the issue was broadcast (not a duplicate) -/
 def IssueMgr.addIssue (m : IssueMgr) (maxEntries window : Nat) (id : Nat) (mrk : Marker) :
     IssueMgr × Bool :=
-  let dup : Bool :=
-    match m.lookup id with
-    | some ex => decide (mrk.ts - ex.ts < window)   -- duration_since(..).unwrap_or(0)
-    | none => false
-  if dup then (m, false)
-  else
-    let m1 := if m.cache.length ≥ maxEntries then m.popFront else m
-    ({ m1 with fifo := m1.fifo ++ [(id, mrk.ts)], cache := cacheInsert m1.cache id mrk }, true)
+  if m.isDup window id mrk then (m, false)
+  else ((m.evictIfFull maxEntries).insert id mrk, true)
 
 end ScionVerif.PathMgr
